@@ -34,7 +34,7 @@ PID = "C04"
 TITLE = "Context non-interference between Split branches and across accumulators"
 LEAN_MODULES = ["LenaModel.Props.C04"]
 LEAN_SOURCES = ["LenaModel/Model/C04.lean", "LenaModel/Lemmas/C04.lean", "LenaModel/Lemmas/C04Alone.lean",
-                "LenaModel/Props/C04.lean"]
+                "LenaModel/Lemmas/C04Local.lean", "LenaModel/Props/C04.lean"]
 DRIVER = "drivers/C04.lean"
 THEOREMS = [
     "Lena.C04.split_tokens_disjoint",
